@@ -3,6 +3,7 @@ package main
 import (
 	"6502profiler/cpu"
 	"fmt"
+	"os"
 	"strconv"
 	"strings"
 	"verifharness/internal/bus"
@@ -260,11 +261,30 @@ func cpu1(seed uint64, n int, tier string) {
 }
 
 // aluExhaustive: every (A, M, C, D) tuple through the immediate form of the arithmetic, compare and
-// logic instructions, and every operand value through the accumulator shifts
+// logic instructions, every (register, operand) pair through CPX/CPY/BIT/TRB/TSB, every operand value and carry
+// through the accumulator shifts and INC/DEC A.  VERIF_ALU_GROUPS (comma separated) restricts the sweep to
+// the groups named (the orchestrator derives them from the functions whose translation no longer is the model's).
 func aluExhaustive() {
-	imm := []uint8{0x69, 0xE9, 0xC9, 0x29, 0x09, 0x49}
+	groups := map[string]bool{}
+	if g := os.Getenv("VERIF_ALU_GROUPS"); g != "" {
+		for _, x := range strings.Split(g, ",") {
+			groups[strings.TrimSpace(x)] = true
+		}
+	}
+	want := func(g string) bool { return len(groups) == 0 || groups[g] }
+	type immOp struct {
+		op  uint8
+		grp string
+		reg int // 0 = A, 1 = X, 2 = Y
+	}
+	imm := []immOp{{0x69, "adc", 0}, {0xE9, "sbc", 0}, {0xC9, "cmp", 0}, {0x29, "and", 0}, {0x09, "ora", 0}, {0x49, "eor", 0},
+		{0xE0, "cpx", 1}, {0xC0, "cpy", 2}}
 	for model := 0; model < 2; model++ {
-		for _, op := range imm {
+		for _, io := range imm {
+			if !want(io.grp) {
+				continue
+			}
+			op := io.op
 			for a := 0; a < 256; a++ {
 				for m := 0; m < 256; m++ {
 					for f := 0; f < 4; f++ {
@@ -279,10 +299,70 @@ func aluExhaustive() {
 							p |= 0x08
 						}
 						c := &cpuCase{Model: model, Budget: 40, Mem: map[uint16]uint8{0x0800: op, 0x0801: uint8(m)}}
-						c.R = regs{PC: 0x0800, SP: 0xFF, A: uint8(a), P: p}
+						c.R = regs{PC: 0x0800, SP: 0xFF, P: p}
+						switch io.reg {
+						case 0:
+							c.R.A = uint8(a)
+						case 1:
+							c.R.X = uint8(a)
+						default:
+							c.R.Y = uint8(a)
+						}
 						emit(c.request() + " => " + runGo(c))
 						count("alu")
 					}
+				}
+			}
+		}
+		// zero-page forms with a memory operand: BIT, and on the 65C02 TRB / TSB
+		zp := []immOp{{0x24, "bit", 0}}
+		if model == 1 {
+			zp = append(zp, immOp{0x14, "trbtsb", 0}, immOp{0x04, "trbtsb", 0})
+		}
+		for _, io := range zp {
+			if !want(io.grp) {
+				continue
+			}
+			for a := 0; a < 256; a++ {
+				for m := 0; m < 256; m++ {
+					c := &cpuCase{Model: model, Budget: 40, Mem: map[uint16]uint8{0x0800: io.op, 0x0801: 0x40, 0x0040: uint8(m)}}
+					c.R = regs{PC: 0x0800, SP: 0xFF, A: uint8(a), P: uint8(0x20 | (a & 0xC3))}
+					emit(c.request() + " => " + runGo(c))
+					count("alu")
+				}
+			}
+		}
+		// accumulator shifts / rotates, INC A / DEC A (65C02): every value, both carries
+		acc := []immOp{{0x0A, "shift", 0}, {0x4A, "shift", 0}, {0x2A, "shift", 0}, {0x6A, "shift", 0}}
+		if model == 1 {
+			acc = append(acc, immOp{0x1A, "incdec", 0}, immOp{0x3A, "incdec", 0})
+		}
+		for _, io := range acc {
+			if !want(io.grp) {
+				continue
+			}
+			for a := 0; a < 256; a++ {
+				for cy := 0; cy < 2; cy++ {
+					c := &cpuCase{Model: model, Budget: 40, Mem: map[uint16]uint8{0x0800: io.op}}
+					c.R = regs{PC: 0x0800, SP: 0xFF, A: uint8(a), P: uint8(0x20 | cy)}
+					emit(c.request() + " => " + runGo(c))
+					count("alu")
+				}
+			}
+		}
+		// memory shifts / INC / DEC on zero page: every value, both carries
+		mem := []immOp{{0x06, "shift", 0}, {0x46, "shift", 0}, {0x26, "shift", 0}, {0x66, "shift", 0}, {0xE6, "incdec", 0}, {0xC6, "incdec", 0},
+			{0xE8, "incdec", 1}, {0xCA, "incdec", 1}, {0xC8, "incdec", 2}, {0x88, "incdec", 2}}
+		for _, io := range mem {
+			if !want(io.grp) {
+				continue
+			}
+			for a := 0; a < 256; a++ {
+				for cy := 0; cy < 2; cy++ {
+					c := &cpuCase{Model: model, Budget: 40, Mem: map[uint16]uint8{0x0800: io.op, 0x0801: 0x40, 0x0040: uint8(a)}}
+					c.R = regs{PC: 0x0800, SP: 0xFF, X: uint8(a), Y: uint8(a), P: uint8(0x20 | cy)}
+					emit(c.request() + " => " + runGo(c))
+					count("alu")
 				}
 			}
 		}
